@@ -33,6 +33,9 @@ def run(ctx):
     skippers.progress(rep, 'R09.g', prog)
     import invariants
     invariants.varint_processor(rep, 'R09.v', prog)
+    # the audited panics of the compact length pass (assert_no_pending_bool_read, struct_end_len) rest on this typestate
+    import thrift_pairs
+    thrift_pairs.compact_typestate(rep, 'R09.t', prog, cg)
     # generated decoders of the corpus (construct-level keys)
     import gen_thrift
     gprog, g, files = gen_thrift.load()
